@@ -620,6 +620,7 @@ func (s *Service) ListenAndServe(url string, options ...nats.Option) error {
 	nc, err := nats.Connect(url, opts...)
 	if err != nil {
 		s.errorf("Failed to connect to NATS server: %s", err)
+		atomic.StoreInt32(&s.state, stateStopped)
 		return err
 	}
 
@@ -660,6 +661,7 @@ func (s *Service) serve(nc Conn) error {
 	// for all the event listeners.
 	err := s.ValidateListeners()
 	if err != nil {
+		atomic.StoreInt32(&s.state, stateStopped)
 		return err
 	}
 
